@@ -34,6 +34,7 @@ package syncq
 //@   modifies SyncQueue.closed, q.buffer.qitems, q.buffer.qhead, q.buffer.qtail
 //@   loop 1
 //@     invariant wheld(q.lock) && c == q.popable && buffer == q.buffer && q.buffer != nil
+//@     invariant #sincelastwake q.closed == cs(q.closed) && q.buffer.qhead == cs(q.buffer.qhead) && q.buffer.qtail == cs(q.buffer.qtail) && q.buffer.qitems == cs(q.buffer.qitems)
 //@     invariant #inv 0 <= q.buffer.qhead && q.buffer.qhead <= q.buffer.qtail && sleepers(q.popable) >= 0 && woken(q.popable) >= 0 && (q.closed ==> sleepers(q.popable) == 0) && (!q.closed && sleepers(q.popable) > 0 ==> qlen(q) <= woken(q.popable) + 1)
 //
 //@ func SyncQueue.TryPop
